@@ -292,6 +292,39 @@ def relational(rep, rng, tier):
                     viol.append((f"schedule-dependence:{name}:{method}",
                                  f"{method} ({'td' if td else 'const'}): state differs by {err:.2e} between {name} and a single run (tol {tol})",
                                  {"method": method, "td": td, "kind": name, "error": float(err)}))
+    # a drift-free Hamiltonian that is exactly zero between short pulses, with the step length bounded by `max_step`: the state
+    # after the pulse does not depend on how the interval is cut into runs or output times
+    def pulse(t):
+        return float(np.pi / 2 / 0.4) if 4.8 <= t < 5.2 else 0.0
+    Hp = qutip.QobjEvo([[qutip.sigmax(), pulse]])
+    up = qutip.basis(2, 0)
+    for method in ("vern7", "vern9", "adams", "dop853", "lsoda", "bdf"):
+        o = {"method": method, "max_step": 0.1, "atol": 1e-10, "rtol": 1e-8, "nsteps": 100000, "progress_bar": ""}
+        try:
+            with core.time_limit(120):
+                one = qutip.SESolver(Hp, options=o).run(up, [0, 10]).states[-1]
+                many = qutip.SESolver(Hp, options=o).run(up, np.linspace(0, 10, 101)).states[-1]
+                sp = qutip.SESolver(Hp, options=o)
+                half = sp.run(up, [0, 5]).states[-1]
+                two = sp.run(half, [5, 10]).states[-1]
+                ss = qutip.SESolver(Hp, options=o)
+                ss.start(up, 0)
+                stepped = [ss.step(t) for t in (2.5, 5.0, 7.5, 10.0)][-1]
+        except core.CaseTimeout:
+            raise
+        except Exception as e:
+            if type(e).__name__ == "IntegratorException":
+                continue
+            viol.append((f"pulse-raises:{method}", f"{method}: {type(e).__name__}: {e}"[:200], {"method": method}))
+            continue
+        exact = (-1j * (np.pi / 2) * qutip.sigmax()).expm() * up
+        for name, got in (("one run", one), ("101 output times", many), ("two consecutive runs", two), ("start / step", stepped)):
+            rep.evaluations += 1
+            rep.count("relational-pulse")
+            err = (got - exact).norm()
+            if err > 1e-5:
+                viol.append((f"schedule-dependence:pulse:{method}", f"{method} with max_step=0.1 on a Hamiltonian that vanishes between pulses: {name} misses the pulse result by {err:.2e}", {"method": method, "schedule": name}))
+                break
     rep.notes["relational_methods"] = methods
     return viol
 
